@@ -56,6 +56,15 @@ CHECKS = {
         assumptions=["the kernel's accept queue and socket buffer are part of `queue`; a datagram sent to a bound UDP socket on loopback is in its buffer when sendto returns",
                      "linearisation of concurrent operations is chosen by the harness from the observed outcomes (an item returned by a call precedes the close of its handle; a successful connect precedes the close of the last handle)"],
     ),
+    "C18": dict(
+        level="proof",
+        campaigns=[dict(engine="life", n=n(6, 150), netns=True), dict(engine="shared", n=n(60, 1500), netns=True), dict(engine="udp", n=n(60, 1200), netns=True)],
+        trusted_base=["models with explicit index/slice bounds and panic effects: Model/Socks.lean + Model/UDP.lean (address parser, validatePacket, timedCopy buffer layout), Model/SSStream.lean, Model/TCP.lean (connection outcomes), Model/Shared.lean — tied to the code by the udp, tcp and shared campaigns",
+                      "`life` campaign: the real server as a child process behind the verif-tagged driver, hostile clients and targets, liveness / recovered-panic log records / continued service / goroutine and descriptor counts",
+                      "Gen/Wiring.lean facts streamServeJoinsAndContainsHandlers, udpLoopContainsPanicsPerDatagram, relayJoinsItsUploadGoroutine, natGoroutineRemovesAndCloses (syntactic, regenerated); Gen/Consts.lean buffer constants"],
+        assumptions=["the Go runtime, the kernel, third-party libraries (SDK cipher code, yaml, prometheus) and un-modelled paths (logging) are outside the theorems and only exercised by the campaigns",
+                     "ReadFrom delivers at most len(buffer) bytes (larger datagrams are truncated by the kernel)"],
+    ),
     "C17": dict(
         level="proof",
         campaigns=[dict(engine="metrics", n=n(250, 5000))],
